@@ -373,11 +373,25 @@ fn pump_and_validate(w: &mut World) -> Vec<Issue> {
             w.schedule_sync_all();
             let _ = w.krill.ca_manager().cas_schedule_repo_sync_all(&w.krill);
         }
-        let (runs, _) = w.quiesce_within(15, 80);
+        let (runs, idle) = w.quiesce_within(15, 80);
         for run in &runs {
             if let Some(f) = run.fatal() {
                 return vec![("daemon-would-exit-during-recovery".into(),
                              format!("{}: {f}", run.name()))]
+            }
+        }
+        if round == 0 && idle {
+            // Whatever was committed before the fault has its follow-up
+            // tasks in the queue: the queue alone - without anybody asking
+            // for a synchronisation - must bring the repository in line
+            // (a follow-up lost inside a claim or a completion shows here).
+            if let Some(obs) = oracle::observe(w) {
+                let (issues, _) = oracle::c01_check(w, &obs);
+                if !issues.is_empty() {
+                    return issues.into_iter().map(|(s, d)| {
+                        (format!("after-recovery:queue-only:{s}"), d)
+                    }).collect()
+                }
             }
         }
     }
